@@ -109,6 +109,9 @@ class Ctx:
                 self.classes[str(cls)] += 1
         if sample is not None and len(self.samples) < MAX_SAMPLES:
             self.samples.append(_jsonable(sample))
+        elif sample is None and nontrivial is not None and len(self.samples) < 3:
+            # guarantee that a run with non-trivial cases always shows some of them
+            self.samples.append({"nontrivial_case_key": _jsonable(nontrivial)})
 
     def sample(self, s):
         if len(self.samples) < MAX_SAMPLES:
